@@ -132,6 +132,11 @@ def contains(I, cont, x):
         ci = I.class_of(cont)
         if ci is not None and ci.find_method("__contains__"):
             return I.truth(I.call_method_ast(cont, "__contains__", [x], {}))
+        # protocol object declared with R.objtype(...) without a class: `x in obj` goes through its function-typed
+        # field `__contains__` (contract declared with R.funtype)
+        fld = cont.fields.get("__contains__")
+        if isinstance(fld, VFunc) and not I.spec:
+            return I.truth(I.call(fld, [x], {}))
     if I.spec:
         raise Unsupported("'in' on %s" % type(cont).__name__)
     I.raise_exc("TypeError", "argument is not iterable")
@@ -546,6 +551,10 @@ def get_attribute(I, o, name, default=_NOCONST):
     elif isinstance(o, VFunc):
         if name == "__name__":
             return VStr(o.name)
+    if isinstance(o, VTuple) and getattr(o, "pylist", False):
+        raise Unsupported("method/attribute %s of a concrete python list of unencodable values" % name)
+    if isinstance(o, VClass) and name == "__name__":
+        return getattr(o, "unknown_name", None) or VStr(o.name)
     if default is not _NOCONST:
         return default
     if I.spec:
@@ -581,6 +590,13 @@ def call(I, f, args, kwargs, node=None):
                 not (I.ver.cur is not None and I.ver.cur.key == f.qual and not I.fn_stack[1:]):
             uf = I.ver.spec_name(I.ver.reg.opaques[f.qual])
             a = ([f.selfv] if f.selfv is not None else []) + list(args)
+            if kwargs or len(a) < len(f.node.args.posonlyargs + f.node.args.args + f.node.args.kwonlyargs):
+                # keyword / defaulted arguments: bind by the real signature so that the uninterpreted function always
+                # receives one value per declared parameter, in declaration order (positional, then keyword-only)
+                e0 = Env(None, f.module)
+                I.bind_params(f.node, a, dict(kwargs), e0, Env(None, f.module))
+                a = [e0.vars[p.arg] for p in f.node.args.posonlyargs + f.node.args.args + f.node.args.kwonlyargs]
+                kwargs = {}
             if uf.kind == "builtin":
                 return uf.impl(I, a, kwargs)
             saved = I.spec
@@ -657,6 +673,9 @@ def call_contract(I, c, f, args, kwargs):
         # a pure callee used inside a specification / comprehension: its result expression
         return I.eval_spec_value(c.pure_result, env)
     I.ver.apply_param_types(I, c, env)
+    if not getattr(c, "modifies_declared", True):
+        I.ver.note_assumption("modular call of %s whose contract declares no `modifies`: assumed to change nothing "
+                              "(declare modifies=[...] to have the frame verified)" % c.short)
     caller = I.cur_obl_prefix()
     for nm, src in c.requires:
         I.path.prove(I.eval_spec(src, env), "%s/call:%s/pre:%s" % (caller, c.short, nm), "call-pre", where=src)
@@ -1032,6 +1051,8 @@ def _isinst(I, v, nm):
             return nm == "deque"
         return nm in ("list", "Sequence")
     if isinstance(v, VTuple):
+        if getattr(v, "pylist", False):
+            return nm in ("list", "Sequence")
         return nm in ("tuple", "Sequence")
     if isinstance(v, (VSet, VEmptySet)):
         return nm in ("set",)
@@ -1224,6 +1245,15 @@ def bi_deque(I, args, kw):
     return v
 
 
+def bi_ordereddict(I, args, kw):
+    """collections.OrderedDict() without arguments: an empty dict literal; it takes its typed insertion-ordered
+    shape (empty_map of `OrderedDict[K, V]`) when stored into a field / local declared with that type.  An
+    order-dependent method on a value that was never given such a type stays `unsupported` (dictrec_method)."""
+    if args or kw:
+        raise Unsupported("OrderedDict(<initial content>)")
+    return VDictRec({})
+
+
 def bi_sorted(I, args, kw):
     v = I.force(args[0])
     key = kw.get("key")
@@ -1328,6 +1358,11 @@ def bi_sum(I, args, kw):
         for x in v.items:
             cur = binop(I, ast.Add(), cur, x)
         return cur
+    if isinstance(v, VSeq) and isinstance(const_of(VInt(v.n)), int) and const_of(VInt(v.n)) <= 64:
+        acc = VInt(0)
+        for j in range(const_of(VInt(v.n))):
+            acc = binop(I, ast.Add(), acc, v.get(z3.IntVal(j)))
+        return acc
     if isinstance(v, VSeq) and (v.et is TInt or v.et is TReal):
         t = TList(v.et)
         f = z3.Function("seq_sum_" + v.et.name, t.sort(), v.et.sort())
@@ -1390,6 +1425,13 @@ def bi_type(I, args, kw):
         ci = I.class_of(v)
         if ci:
             return VClass(ci.name, ci.node, ci.module)
+    if isinstance(v, VExc):
+        # class of a caught exception; for an exception raised by a contract/trusted model (`any_subclass`) the
+        # concrete class is unknown: its __name__ is an arbitrary string
+        c = VClass(v.cls, exc_base=EXC_PARENT.get(v.cls) or "BaseException")
+        if v.any_subclass:
+            c.unknown_name = VStr(I.path.fresh("exc_class_name", z3.StringSort()))
+        return c
     raise Unsupported("type()")
 
 
@@ -1570,7 +1612,18 @@ def sp_enc_eq(I, args, kw):
     return VBool(unwrap(a, t) == unwrap(b, t))
 
 
+def sp_opos(I, args, kw):
+    """opos(d, k) (spec only): position of key k in the insertion order of the ordered map d, i.e. the index i
+    with list(d.keys())[i] == k.  Defined for k in d (the map's type invariant `assume_wf_order` gives
+    0 <= opos < len(d) and keys[opos] == k then); an unconstrained integer otherwise."""
+    m, k = args
+    if not isinstance(m, VMap) or m.order is None or getattr(m, "pos", None) is None:
+        raise Unsupported("opos of a value that is not an insertion-ordered map")
+    return VInt(m.pos(unwrap(k, m.kt)))
+
+
 BUILTIN_FUNCS = {
+    "opos": sp_opos,
     "choose": gh_choose, "map_set_all": gh_map_set_all,
     "map_put": sp_map_put, "map_del": sp_map_del, "perm_of": sp_perm_of, "enc_eq": sp_enc_eq,
     "lemma_pigeonhole": gh_lemma_pigeonhole, "int_parses": sp_int_parses, "int_value": sp_int_value,
@@ -1585,7 +1638,8 @@ BUILTIN_FUNCS = {
     "fs_temp_name": lambda I, a, k: __import__("pyvc.fsmodel", fromlist=["x"]).sp_fs_temp_name(I, a, k),
 }
 BUILTIN_TYPES = {"int": bi_int, "float": bi_float, "bool": bi_bool, "str": bi_str, "list": bi_list,
-                 "tuple": bi_tuple, "dict": bi_dict, "set": bi_set, "object": bi_object, "deque": bi_deque}
+                 "tuple": bi_tuple, "dict": bi_dict, "set": bi_set, "object": bi_object, "deque": bi_deque,
+                 "OrderedDict": bi_ordereddict}
 TYPE_NAMES = {"int", "float", "bool", "str", "list", "tuple", "dict", "set", "object", "NoneType", "bytes",
               "Mapping", "MutableMapping", "Sequence", "deque", "OrderedDict", "frozenset"}
 
@@ -2098,7 +2152,8 @@ def comprehension(I, n, env):
     p.assume(z3.ForAll([j, j2], z3.Implies(z3.And(0 <= j, j < j2, j2 < res.n), sel(j) < sel(j2)),
                        patterns=[z3.MultiPattern(sel(j), sel(j2))]))
     hit_pats = [rank(i)]
-    if base.arr is not None:
+    if base.arr is not None and z3.is_const(base.arr) and base.arr.decl().kind() == z3.Z3_OP_UNINTERPRETED:
+        # (a Store/Lambda/ite-valued array is not a legal trigger: "'if' cannot be used in patterns")
         hit_pats.append(z3.Select(base.arr, i))
     p.assume(z3.ForAll([i], z3.Implies(z3.And(0 <= i, i < base.n, cond),
                                       z3.And(0 <= rank(i), rank(i) < res.n, sel(rank(i)) == i,
